@@ -9,7 +9,7 @@ From Coq Require Import String.
 From Coq Require Import List NArith ZArith Arith.
 Import ListNotations.
 From YP Require Import Base.Str Term.Term Unify.Unify Unify.Mgu Lang.Ast Lang.Lexer Lang.Cst Lang.Parser Lang.Unquote Lang.Literals Lang.Front
-  Comp.IR Comp.CompileBody Sem.Machine Engine.GetValue Lang.Denote Lang.Utf8 Lang.Utf8Strict Lang.FileEntry Cli.Cli.
+  Comp.IR Comp.CompileBody Sem.Machine Engine.GetValue Engine.PyObjects Lang.Denote Lang.Utf8 Lang.Utf8Strict Lang.FileEntry Cli.Cli.
 
 (* quote s = ' s ' with \' for every quote in s.  For every text without backslash -- quotes, line
    breaks, any code point -- it is lexed as the single token STRING and unquoted back to s. *)
@@ -174,6 +174,40 @@ Print Assumptions C16_file_decoding_strict.
 Theorem C16_file_ascii_bytes : forall s b, In b (utf8_encode s) -> (b < 128)%N -> In b s.
 Proof. exact utf8_ascii_bytes_are_characters. Qed.
 Print Assumptions C16_file_ascii_bytes.
+
+(* round 4 - the OBJECTS to_python hands out (Engine/PyObjects.v: to_python with a counter of object identities, following
+   the list displays, `+` and the comprehension of the code).  Forgetting the identities gives to_python: the value of a
+   conversion depends on the term and the store alone, not on anything converted (or changed by a caller) before *)
+Theorem C16_to_python_objects_value : forall n s t k, eres (fst (to_python_obj n s t k)) = to_python n s t.
+Proof. exact obj_erase. Qed.
+Print Assumptions C16_to_python_objects_value.
+
+(* every list object reachable from a result was created by that conversion, and occurs once in it *)
+Theorem C16_to_python_fresh_lists : forall n s t k v k', to_python_obj n s t k = (OOk v, k') ->
+  k <= k' /\ NoDup (addrs v) /\ forall a, In a (addrs v) -> k <= a < k'.
+Proof. exact obj_fresh. Qed.
+Print Assumptions C16_to_python_fresh_lists.
+
+(* two conversions (any terms, stores, fuel) share no list object; the same term converted twice gives equal values
+   made of different objects - so nothing a caller does to one result shows in another *)
+Theorem C16_to_python_results_disjoint : forall n1 s1 t1 k1 v1 k1' n2 s2 t2 k2 v2 k2',
+  to_python_obj n1 s1 t1 k1 = (OOk v1, k1') -> k1' <= k2 -> to_python_obj n2 s2 t2 k2 = (OOk v2, k2') ->
+  forall a, In a (addrs v1) -> ~ In a (addrs v2).
+Proof. exact obj_disjoint. Qed.
+Print Assumptions C16_to_python_results_disjoint.
+
+Theorem C16_to_python_twice : forall n s t k v1 k1 v2 k2,
+  to_python_obj n s t k = (OOk v1, k1) -> to_python_obj n s t k1 = (OOk v2, k2) ->
+  erase v1 = erase v2 /\ forall a, In a (addrs v1) -> ~ In a (addrs v2).
+Proof. exact obj_twice. Qed.
+Print Assumptions C16_to_python_twice.
+
+Example C16_objects_nonvacuous :
+  let t := TFun dot [TAtom nil_name; TFun dot [TFun (d "f") [TAtom nil_name]; TFun dot [TAtom nil_name; TAtom nil_name]]] in
+  exists v1 k1 v2 k2, to_python_obj 20 [] t 0 = (OOk v1, k1) /\ to_python_obj 20 [] t k1 = (OOk v2, k2) /\
+    erase v1 = PList [PList []; PPair (d "f") [PList []]; PList []] /\ length (addrs v1) = 5 /\ k1 = 11 /\
+    addrs v1 <> addrs v2.
+Proof. exact obj_example. Qed.
 
 (* literals that print alike once the quotes are left out are different literals and denote different terms:
    f('a,b') is f/1 of the atom named "a,b", f(a,b) is f/2; the text with CR LF in an atom, read from its bytes, keeps the CR *)
